@@ -1,4 +1,5 @@
 import ExaModel.Lemmas.PackSpec
+import ExaModel.Lemmas.PackWire
 set_option linter.unusedSimpArgs false
 set_option linter.unusedVariables false
 /-!
@@ -28,8 +29,14 @@ field, which needs a negotiated maximum above 65535).
   * so a prefix the attributes leave no room for is in no message, and nothing else is dropped.
 The remaining theorems are its parts, stated separately with weaker hypotheses where they need less.
 
-"Parses on its own" is about bytes; it is checked by the correspondence run (the real decoder on
-every emitted message of every case), not by this size model.  Hypotheses that are part of the
+"Parses on its own": `c09_parses_alone` (with `msg_len_is_encoding_length` and
+`c09_decoded_union`) connects the size model to the RFC reference codec M-Wire: under the side
+conditions `Realises ρ i` — `ρ` supplies wire NLRIs, next-hop bytes and an attribute block whose
+reference encodings have exactly the sizes M-Pack was given — the length M-Pack computes for a
+message IS the length of the reference encoding of the UPDATE the message stands for, and the
+RFC reference decoder accepts that encoding, alone, and returns that UPDATE.  What remains for the
+correspondence run: that ExaBGP's bytes are those of the reference encoder (C01/C15) and that
+ExaBGP's own decoder accepts them (run on every emitted message).  Hypotheses that are part of the
 statement: an NLRI has at least one byte (`PosSizes`), `famOrder` lists the families present
 (`FamCover`: it is the iteration of the Python set built from them).
 -/
@@ -130,7 +137,7 @@ theorem c09_nothing_else (i : Input) : ∀ m ∈ (pack i).msgs,
       | none => simp [hr] at h
       | some r =>
         simp [hr] at h
-        have h' := (s.r r hr).2 x h
+        have h' := (s.r r hr).2.2 x h
         have := ma x h'.1
         exact ⟨this.1, this.2.1, by simpa [fitsAnn, this.2.2] using h'.2.2.2.2⟩
   · intro x hx
@@ -144,7 +151,7 @@ theorem c09_nothing_else (i : Input) : ∀ m ∈ (pack i).msgs,
       | some u =>
         simp [hu] at h
         have h' := s.u u hu
-        have h'' := h'.2.2 x h
+        have h'' := h'.2.2.2 x h
         have := mw x h''.1
         exact ⟨this.1, this.2.1, by simpa [fitsWd, this.2.2] using h''.2.2, h'.1⟩
   · intro x hx
@@ -155,10 +162,10 @@ theorem c09_nothing_else (i : Input) : ∀ m ∈ (pack i).msgs,
     rcases List.mem_append.1 hx with h | h
     · cases hr : m.reach with
       | none => simp [hr] at h
-      | some r => simp [hr] at h; exact (ma x ((s.r r hr).2 x h).1).2.2
+      | some r => simp [hr] at h; exact (ma x ((s.r r hr).2.2 x h).1).2.2
     · cases hu : m.unreach with
       | none => simp [hu] at h
-      | some u => simp [hu] at h; exact (mw x ((s.u u hu).2.2 x h).1).2.2
+      | some u => simp [hu] at h; exact (mw x ((s.u u hu).2.2.2 x h).1).2.2
 
 /-- **Own next hop.** An MP_REACH_NLRI of the output is for one family and one next hop (its
     header is AFI, SAFI, length, that next hop, reserved) and every NLRI in it was requested with
@@ -171,10 +178,10 @@ theorem c09_own_nexthop (i : Input) : ∀ m ∈ (pack i).msgs,
   have s := packRaw_sections i m (pack_sub i m hm)
   constructor
   · intro r hr
-    obtain ⟨h1, h2⟩ := s.r r hr
+    obtain ⟨h1, _, h2⟩ := s.r r hr
     exact ⟨h1, fun x hx => ⟨(h2 x hx).2.1, (h2 x hx).2.2.1, (h2 x hx).2.2.2.1⟩⟩
   · intro u hu
-    obtain ⟨_, h1, h2⟩ := s.u u hu
+    obtain ⟨_, h1, _, h2⟩ := s.u u hu
     exact ⟨h1, fun x hx => (h2 x hx).2.1⟩
 
 /-- **The attribute block travels with every announce.** -/
@@ -224,6 +231,141 @@ theorem c09 (i : Input) (hM : i.M ≤ 65535) (hp : PosSizes i) (hf : FamCover i)
       exact hc.2 hi x hx hn hfit
   · intro m hm r hr x hx
     exact ((c09_own_nexthop i m hm).1 r hr).2 x hx
+
+/-! ## The byte level: what a message stands for (M-Pack ↔ M-Wire)
+
+`realise ρ m` (Lemmas/PackWire.lean) is the `Exa.Wire.UpdateSem` of a message of the partition:
+Withdrawn Routes = the wire NLRIs of `m.wd4`; path attributes = MP_UNREACH_NLRI (if any), the common
+block `ρ.blk` (if `m.attrs`), MP_REACH_NLRI with the group's next hop (if any), in the order
+`messages` concatenates them; NLRI = the wire NLRIs of `m.ann4`.  `Realises ρ i` are the exact side
+conditions: `ρ.p.msgSize = i.M ≤ 65535`; the block encodes to `chosenAttr i` bytes, is well formed,
+has one attribute per code and neither MP attribute, and holds ORIGIN/AS_PATH(/NEXT_HOP) when MP
+(IPv4) routes are announced; every requested NLRI has a well-formed wire form whose encoding (in the
+classic field, resp. in the MP attribute of its supported family) has the size M-Pack uses; every
+MP next hop has bytes of the length M-Pack uses, a length the family allows. -/
+
+/-- **The size arithmetic is the byte layout.** The length M-Pack computes for a message — 23 +
+    attribute block, 3/4-byte attribute headers, MP overhead `5 + nhLen` / `3` — is 19 (header) + the
+    length of the RFC reference encoding of the UPDATE the message stands for. -/
+theorem msg_len_is_encoding_length (ρ : Real) (i : Input) (H : Realises ρ i) :
+    ∀ m ∈ (pack i).msgs, m.len = 19 + (Wire.encodeUpdate ρ.p (realise ρ m)).length :=
+  fun m hm => realise_len H (packRaw_sections i m (pack_sub i m hm))
+
+/-- **Every message parses on its own.** The RFC reference decoder, given the reference encoding of
+    the UPDATE a message stands for and nothing else, accepts it (size, syntax, attribute flags and
+    lengths, duplicate / mandatory attribute and MP next-hop checks) and returns exactly that UPDATE. -/
+theorem c09_parses_alone (ρ : Real) (i : Input) (H : Realises ρ i) :
+    ∀ m ∈ (pack i).msgs,
+      Wire.decodeUpdate ρ.p (Wire.encodeUpdate ρ.p (realise ρ m)) = .ok (realise ρ m) := by
+  intro m hm
+  have s := packRaw_sections i m (pack_sub i m hm)
+  obtain ⟨hw, ha, hn, hW, hA, hsz, hsem⟩ := realise_wf H s (c09_fits i m hm)
+  unfold Wire.decodeUpdate
+  have c : ¬ (Wire.encodeUpdate ρ.p (realise ρ m)).length + 19 > ρ.p.msgSize := by omega
+  rw [if_neg c, Wire.decodeRaw_encodeUpdate ρ.p _ hw ha hn hW hA]
+  simp only [hsem]
+
+/-- **What the messages decode to, taken together, is the request.**
+    (a) every requested announce of a negotiated family that fits alone is announced by the decoding
+    of some message — in the NLRI field for what the code classifies as IPv4 unicast, else in an
+    MP_REACH_NLRI of its family under its own next hop — and that decoding carries the whole attribute
+    block; every such withdraw is withdrawn by the decoding of some message;
+    (b) conversely everything any message decodes to — NLRI field, Withdrawn Routes, every
+    MP_REACH_NLRI / MP_UNREACH_NLRI entry — is the wire form of a requested route of a negotiated
+    family that fits alone (withdraws only with `include_withdraw`). -/
+theorem c09_decoded_union (ρ : Real) (i : Input) (H : Realises ρ i) (hp : PosSizes i) (hf : FamCover i) :
+    (∀ x ∈ i.anns, x.fam ∈ i.negotiated → fitsAnn i x →
+      ∃ m ∈ (pack i).msgs, ∃ u, Wire.decodeUpdate ρ.p (Wire.encodeUpdate ρ.p (realise ρ m)) = .ok u ∧
+        (∀ a ∈ ρ.blk, a ∈ u.attrs) ∧
+        (if x.v4 then ρ.nl x ∈ u.nlri
+         else ((ρ.famOf x.fam).1, (ρ.famOf x.fam).2, Wire.nhAddr (ρ.famOf x.fam).2 (ρ.nhb x.nh), ρ.nl x)
+                ∈ Wire.mpAnnounces u.attrs)) ∧
+    (i.includeWithdraw = true → ∀ x ∈ i.wds, x.fam ∈ i.negotiated → fitsWd i x →
+      ∃ m ∈ (pack i).msgs, ∃ u, Wire.decodeUpdate ρ.p (Wire.encodeUpdate ρ.p (realise ρ m)) = .ok u ∧
+        (if x.v4 then ρ.nl x ∈ u.withdrawn
+         else ((ρ.famOf x.fam).1, (ρ.famOf x.fam).2, Wire.eraseLabels (ρ.nl x)) ∈ Wire.mpWithdraws u.attrs)) ∧
+    (∀ m ∈ (pack i).msgs, ∀ u, Wire.decodeUpdate ρ.p (Wire.encodeUpdate ρ.p (realise ρ m)) = .ok u →
+      (∀ n ∈ u.nlri, ∃ x ∈ i.anns, x.fam ∈ i.negotiated ∧ fitsAnn i x ∧ x.v4 = true ∧ n = ρ.nl x) ∧
+      (∀ t ∈ Wire.mpAnnounces u.attrs, ∃ x ∈ i.anns, x.fam ∈ i.negotiated ∧ fitsAnn i x ∧ x.v4 = false ∧
+          t = ((ρ.famOf x.fam).1, (ρ.famOf x.fam).2, Wire.nhAddr (ρ.famOf x.fam).2 (ρ.nhb x.nh), ρ.nl x)) ∧
+      (∀ n ∈ u.withdrawn, ∃ x ∈ i.wds, x.fam ∈ i.negotiated ∧ fitsWd i x ∧ i.includeWithdraw = true ∧ x.v4 = true ∧ n = ρ.nl x) ∧
+      (∀ t ∈ Wire.mpWithdraws u.attrs, ∃ x ∈ i.wds, x.fam ∈ i.negotiated ∧ fitsWd i x ∧ i.includeWithdraw = true ∧ x.v4 = false ∧
+          t = ((ρ.famOf x.fam).1, (ρ.famOf x.fam).2, Wire.eraseLabels (ρ.nl x)))) := by
+  have hc := c09_complete i H.small hp hf
+  have hpa := c09_parses_alone ρ i H
+  refine ⟨?_, ?_, ?_⟩
+  · intro x hx hn hfit
+    obtain ⟨m, hm, hxm, hat⟩ := hc.1 x hx hn hfit
+    refine ⟨m, hm, realise ρ m, hpa m hm, ?_, ?_⟩
+    · intro a ha; simp [realise, hat, ha]
+    · have hne := c09_nothing_else i m hm
+      rw [annsOf_eq] at hxm
+      by_cases hv : x.v4 = true
+      · simp only [hv, if_true]
+        rcases List.mem_append.1 hxm with h | h
+        · exact List.mem_map.2 ⟨x, h, rfl⟩
+        · have := hne.2.2.2 x (List.mem_append_left _ h); rw [hv] at this; cases this
+      · have hv' : x.v4 = false := by simpa using hv
+        simp only [hv', Bool.false_eq_true, if_false]
+        rcases List.mem_append.1 hxm with h | h
+        · have := hne.2.2.1 x (List.mem_append_left _ h); rw [hv'] at this; cases this
+        · cases hr : m.reach with
+          | none => simp [hr] at h
+          | some r =>
+            simp [hr] at h
+            obtain ⟨hfam, hnh, _⟩ := ((c09_own_nexthop i m hm).1 r hr).2 x h
+            rw [mpAnnounces_realise H]
+            exact ⟨r, hr, x, h, by rw [hfam, hnh]⟩
+  · intro hi x hx hn hfit
+    obtain ⟨m, hm, hxm⟩ := hc.2 hi x hx hn hfit
+    refine ⟨m, hm, realise ρ m, hpa m hm, ?_⟩
+    have hne := c09_nothing_else i m hm
+    rw [wdsOf_eq] at hxm
+    by_cases hv : x.v4 = true
+    · simp only [hv, if_true]
+      rcases List.mem_append.1 hxm with h | h
+      · exact List.mem_map.2 ⟨x, h, rfl⟩
+      · have := hne.2.2.2 x (List.mem_append_right _ h); rw [hv] at this; cases this
+    · have hv' : x.v4 = false := by simpa using hv
+      simp only [hv', Bool.false_eq_true, if_false]
+      rcases List.mem_append.1 hxm with h | h
+      · have := hne.2.2.1 x (List.mem_append_right _ h); rw [hv'] at this; cases this
+      · cases hu : m.unreach with
+        | none => simp [hu] at h
+        | some u =>
+          simp [hu] at h
+          have hfam := ((c09_own_nexthop i m hm).2 u hu).2 x h
+          rw [mpWithdraws_realise H]
+          exact ⟨u, hu, x, h, by rw [hfam]⟩
+  · intro m hm u hu
+    rw [hpa m hm] at hu
+    cases hu
+    have hne := c09_nothing_else i m hm
+    refine ⟨?_, ?_, ?_, ?_⟩
+    · intro n hn
+      simp only [realise, List.mem_map] at hn
+      obtain ⟨x, hx, rfl⟩ := hn
+      have h1 := hne.1 x (by rw [annsOf_eq]; exact List.mem_append_left _ hx)
+      exact ⟨x, h1.1, h1.2.1, h1.2.2, hne.2.2.1 x (List.mem_append_left _ hx), rfl⟩
+    · intro t ht
+      rw [mpAnnounces_realise H] at ht
+      obtain ⟨r, hr, x, hx, rfl⟩ := ht
+      have h1 := hne.1 x (by rw [annsOf_eq, hr]; exact List.mem_append_right _ hx)
+      obtain ⟨hfam, hnh, _⟩ := ((c09_own_nexthop i m hm).1 r hr).2 x hx
+      refine ⟨x, h1.1, h1.2.1, h1.2.2, hne.2.2.2 x (List.mem_append_left _ (by simp [hr, hx])), ?_⟩
+      rw [hfam, hnh]
+    · intro n hn
+      simp only [realise, List.mem_map] at hn
+      obtain ⟨x, hx, rfl⟩ := hn
+      have h1 := hne.2.1 x (by rw [wdsOf_eq]; exact List.mem_append_left _ hx)
+      exact ⟨x, h1.1, h1.2.1, h1.2.2.1, h1.2.2.2, hne.2.2.1 x (List.mem_append_right _ hx), rfl⟩
+    · intro t ht
+      rw [mpWithdraws_realise H] at ht
+      obtain ⟨v, hv, x, hx, rfl⟩ := ht
+      have h1 := hne.2.1 x (by rw [wdsOf_eq, hv]; exact List.mem_append_right _ hx)
+      have hfam := ((c09_own_nexthop i m hm).2 v hv).2 x hx
+      refine ⟨x, h1.1, h1.2.1, h1.2.2.1, h1.2.2.2, hne.2.2.2 x (List.mem_append_right _ (by simp [hv, hx])), ?_⟩
+      rw [hfam]
 
 /-! ## The two points that were excluded before the repair (F19), on the repaired model
 
@@ -284,5 +426,69 @@ example : (pack { demo with M := 4096, anns := (List.range 13).map (fun k => v6 
     is not built; the /8 is sent in 65533 bytes -/
 example : (pack { unfitInput with M := 65535, attrDef := 65508 }).status = .ok
     ∧ (pack { unfitInput with M := 65535, attrDef := 65508 }).msgs.map (·.len) = [65533] := by decide
+
+/-! ## Non-vacuity of the byte level: a concrete realisation
+
+An eBGP-like block ORIGIN IGP, empty AS_PATH, NEXT_HOP 1.2.3.4 (4 + 3 + 7 = 14 bytes); an IPv4 /24
+(4 bytes), an IPv6 /64 with a 16-byte next hop (9 bytes), an IPv6 /32 withdraw (5 bytes). -/
+
+def wkFlags : Wire.Flags := { opt := false, trans := true, part := false, ext := false }
+
+def realBlk : List Wire.Attr :=
+  [{ flags := wkFlags, val := .origin 0 }, { flags := wkFlags, val := .asPath [] },
+   { flags := wkFlags, val := .nextHop 16909060 }]
+
+def realIn : Input :=
+  { M := 4096, attrDef := 14, attrNoDef := 0, negotiated := [1, 3], simple := [1, 2, 3, 4], famOrder := [3],
+    anns := [{ id := 1, size := 4, fam := 1, v4 := true, nh := 1, nhLen := 4 },
+             { id := 2, size := 9, fam := 3, v4 := false, nh := 2, nhLen := 16 }],
+    wds := [{ id := 3, size := 5, fam := 3, v4 := false, nh := 0, nhLen := 0 }], includeWithdraw := true }
+
+def realRho : Real :=
+  { p := { asn4 := true, addpath := [], extnh := [], msgSize := 4096 },
+    famOf := fun f => if f = 1 then (1, 1) else if f = 3 then (2, 1) else (0, 0),
+    nl := fun x =>
+      if x.id = 1 then { pathId := none, labels := [], rd := [], plen := 24, pfx := [10, 0, 0] }
+      else if x.id = 2 then { pathId := none, labels := [], rd := [], plen := 64, pfx := [32, 1, 13, 184, 0, 0, 0, 1] }
+      else { pathId := none, labels := [], rd := [], plen := 32, pfx := [32, 1, 13, 185] },
+    nhb := fun _ => [32, 1, 13, 184, 0, 0, 0, 0, 0, 0, 0, 0, 0, 0, 0, 1],
+    blk := realBlk }
+
+theorem realRho_realises : Realises realRho realIn where
+  msgSize := rfl
+  small := by decide
+  blkLen := by decide
+  blkWF := by
+    intro a ha
+    simp only [realRho, realBlk, List.mem_cons, List.not_mem_nil, or_false] at ha
+    rcases ha with rfl | rfl | rfl
+    · exact ⟨by decide, by show (0 : Nat) ≤ 2; decide, by decide⟩
+    · exact ⟨by decide, by simp [Wire.WFVal], by decide⟩
+    · exact ⟨by decide, by show (16909060 : Nat) < 4294967296; decide, by decide⟩
+  blkNodup := by decide
+  blk14 := by decide
+  blk15 := by decide
+  va := by decide
+  vw := by decide
+  ma := by decide
+  mw := by decide
+  mand4 := by intro _; decide
+  mandMp := by intro _; decide
+
+/-- two messages: the IPv4 one, then MP_REACH + MP_UNREACH of IPv6 sharing one message -/
+example : (pack realIn).msgs.map (·.len) = [41, 81] := by decide
+/-- the bytes of the first one (after the 19-byte header), from the RFC reference encoder -/
+example : (pack realIn).msgs.map (fun m => Wire.encodeUpdate realRho.p (realise realRho m)) =
+    [[0, 0, 0, 14, 64, 1, 1, 0, 64, 2, 0, 64, 3, 4, 1, 2, 3, 4, 24, 10, 0, 0],
+     [0, 0, 0, 58, 128, 15, 8, 0, 2, 1, 32, 32, 1, 13, 185, 64, 1, 1, 0, 64, 2, 0, 64, 3, 4, 1, 2, 3, 4,
+      128, 14, 30, 0, 2, 1, 16, 32, 1, 13, 184, 0, 0, 0, 0, 0, 0, 0, 0, 0, 0, 0, 1, 0, 64, 32, 1, 13, 184, 0, 0, 0, 1]] := by
+  decide
+/-- `c09_parses_alone` and `msg_len_is_encoding_length` apply to it -/
+example : ∀ m ∈ (pack realIn).msgs,
+    Wire.decodeUpdate realRho.p (Wire.encodeUpdate realRho.p (realise realRho m)) = .ok (realise realRho m) ∧
+    m.len = 19 + (Wire.encodeUpdate realRho.p (realise realRho m)).length :=
+  fun m hm => ⟨c09_parses_alone realRho realIn realRho_realises m hm,
+               msg_len_is_encoding_length realRho realIn realRho_realises m hm⟩
+example : PosSizes realIn ∧ FamCover realIn := by decide
 
 end Exa.Props.C09
